@@ -10,14 +10,18 @@ import (
 	"fmt"
 	"sort"
 	"strings"
+	"testing"
 )
 
 // Prop describes one property check.
 type Prop struct {
-	ID    string
-	Race  bool   // must run in the -race binary; race reports are violations
-	Level string // evidence level, default "exploration"
-	Rule  string // how cases are generated and what counts as distinct / non-trivial
+	ID   string
+	Race bool // must run in the -race binary; race reports are violations
+	// VirtualTime: the workers run inside a test function (testing.Main) so that cases can enter a testing/synctest
+	// bubble, where time is virtual: library timers fire in logical time, stalls of hours cost nothing
+	VirtualTime bool
+	Level       string // evidence level, default "exploration"
+	Rule        string // how cases are generated and what counts as distinct / non-trivial
 	// NumCases is the size of the seed-determined case list for a tier.
 	NumCases func(tier string, seed uint64) int
 	// Gen returns the i-th case (JSON-serialisable; pure function of tier, seed, i).
@@ -215,3 +219,6 @@ type Agg struct {
 }
 
 func (a *Agg) SetSize(name string) int { return len(a.Sets[name]) }
+
+// T is the test context of a worker that runs under testing.Main (nil otherwise).
+var T *testing.T
